@@ -36,3 +36,17 @@ package head
 //@   at call Sign#1: assert arg1 == privKey && str(as(arg0.Head, "cidlink.Link").Cid.str) == str(headCid.str)
 //@   at call Sign#1: assert ite(str(topic) == str(""), arg0.Topic == nil, arg0.Topic != nil && str(*arg0.Topic) == str(topic))
 //@   ensures result1 == nil ==> result0 != nil
+
+// Decode returns a head only together with a nil error. That the decoded Head
+// is a CID link is bindnode/dag-json behaviour (ASSUMED).
+//@ func Decode
+//@   property C03
+//@   ensures result1 == nil ==> result0 != nil
+//@   ensures result1 != nil ==> result0 == nil
+//@   ensures-assumed result1 == nil ==> result0.Head != nil && typeis(result0.Head, "cidlink.Link")
+
+//@ func UnwrapSignedHead
+//@   property C03
+//@   requires node != nil
+//@   ensures result1 == nil ==> result0 != nil
+//@   ensures result1 != nil ==> result0 == nil
